@@ -491,7 +491,11 @@ def run_config(ctx, kind, mode, raiser, tier, threaded=False):
                         replay_quiet(rig, e)
                     else:
                         ok = step(ctx, rig, e, h2)
-                key = (kind, mode, raiser, threaded, canon(rig))
+                # the bulk routes switch a hidden per-object mode on and off;
+                # a state reached through one is kept apart from the same
+                # value reached by plain assignment, so it is extended too
+                key = (kind, mode, raiser, threaded, canon(rig),
+                       ev[2] if len(ev) > 2 else None)
                 if ok and ctx.state(key):
                     nxt.append(h2)
         frontier = nxt
